@@ -123,3 +123,37 @@ def text_faults(rng, data):
         return []
     at = rng.randrange(n)
     return [{'k': 'set', 'at': at, 'val': rng.choice((0x80, 0xc3, 0xe9, 0xff, 0x00, 0x2e, 0x2d, 0x3a))}]
+
+
+TOKENS = (
+    b'0', b'1', b'-1', b'5', b'1.5', b'1e400', b'-0', b'NaN', b'Infinity', b'null', b'true', b'false', b'[]', b'{}', b'""',
+    b'[1]', b'"a"', b'[null]', b'{"a": 1}', b'["report_to", "max_age"]', b'"report_to max_age"', b'{"max_age": {}}',
+    b'{"report_to": 1, "max_age": "x"}', b'*', b"'none'", b"'self'", b'=', b'==', b';', b',', b' ', b'""""', b'a=b=c',
+    b'9' * 40, b'max-age=', b'max-age=-1', b'max-age=1e3', b'max-age="1"', b'v=', b'v=spf1', b'ip4:', b'ip4:1.2.3.4/33',
+    b'ip6:::1/129', b'ip4:::1', b'ip6:1.2.3.4', b'a:/', b'mx://', b'%{', b'%{z}', b'exists:%', b'sha256-', b"'sha256-'",
+    b"'nonce-'", b"'sha999-YQ=='", b'http://[', b'http://[::1', b'//', b':', b'::', b'\r\n', b'\r\n\r\n', b'\x00',
+    b'Mon, 99 Foo 9999 99:99:99 GMT', b'Thu, 01 Jan 1970 00:00:00 +9999', b'99999999999999999999', b'1' + b'0' * 400,
+)
+
+
+def is_text(data):
+    return bool(data) and sum(1 for byte in data if 0x20 <= byte < 0x7f or byte in (0x0d, 0x0a, 0x09)) >= len(data) * 0.95
+
+
+def token_faults(rng, data):
+    """Grammar-aware replacement for text inputs: a whole value (from a delimiter to the next delimiter or to
+    the end) is replaced by a well-formed token of another type."""
+    starts = [0]
+    for idx, byte in enumerate(data):
+        if byte in b':=; ,' and idx + 1 < len(data):
+            starts.append(idx + 1)
+            if data[idx + 1:idx + 2] == b' ':
+                starts.append(idx + 2)
+    at = rng.choice(starts)
+    end = None
+    if rng.random() < 0.5:
+        for idx in range(at, len(data)):
+            if data[idx] in b';,\r\n' or (data[idx] == 0x20 and rng.random() < 0.3):
+                end = idx
+                break
+    return [{'k': 'token', 'at': at, 'end': end, 'hex': rng.choice(TOKENS).hex()}]
